@@ -3,6 +3,7 @@ package rules
 
 import (
 	"fmt"
+	"os"
 	"sort"
 
 	"rcheck/engine"
@@ -27,7 +28,7 @@ func Run(prop, tier, repo, verif string, lo engine.LoadOpts) int {
 		return 2
 	}
 	lo.RepoDir = repo
-	lo.Whole = tier == "thorough" && wholeProgram[prop]
+	lo.Whole = (tier == "thorough" && wholeProgram[prop]) || os.Getenv("RCHECK_WHOLE") == "1"
 	p, err := engine.Load(lo)
 	if err != nil {
 		fmt.Println("CHECKER-BROKEN:", err)
@@ -49,3 +50,41 @@ func Run(prop, tier, repo, verif string, lo engine.LoadOpts) int {
 
 // properties whose thorough tier needs bodies of dependencies
 var wholeProgram = map[string]bool{}
+
+// RunMany loads the program once and runs several property checks on it (used by the
+// development helper -try-patch; registered commands always run one property per process).
+// Prints "== Cnn exit=N" before each property's output; returns the highest exit code.
+func RunMany(props []string, tier, repo, verif string, lo engine.LoadOpts) int {
+	lo.RepoDir = repo
+	p, err := engine.Load(lo)
+	if err != nil {
+		fmt.Println("CHECKER-BROKEN:", err)
+		return 2
+	}
+	worst := 0
+	for _, prop := range props {
+		if prop == "" {
+			continue
+		}
+		f, ok := registry[prop]
+		if !ok {
+			continue
+		}
+		r := engine.NewReport(prop, tier, p)
+		code := func() (code int) {
+			defer func() {
+				if x := recover(); x != nil {
+					fmt.Printf("CHECKER-BROKEN: panic in rule code of %s: %v\n", prop, x)
+					code = 2
+				}
+			}()
+			f(r, p)
+			return r.Finish(verif)
+		}()
+		fmt.Printf("== %s exit=%d\n", prop, code)
+		if code > worst {
+			worst = code
+		}
+	}
+	return worst
+}
